@@ -104,10 +104,20 @@ def draw_reject(h):
             if h.fitted:
                 call = "fit"
             dec, rew, cx = h.batch(n=n, omit=False)
+            if call == "fit" and draw(st.booleans()):
+                # ... and with another number of feature columns than the history (a fit may change the width, so
+                # only the row count makes this call invalid)
+                extra = draw(st.sampled_from([1, -1])) if h.d > 1 else 1
+                cx = draw(gen.contexts_st(len(dec), h.d + extra, h.grid))
         else:
             dec, rew, cx = h.batch(n=draw(st.integers(max(2, h.min_rows), 6)), omit=False)
         if kind == "pf_wrong_columns":
             extra = draw(st.sampled_from([1, -1])) if h.d > 1 else 1
+            if draw(st.booleans()):
+                # every arm occurs in the batch: arms with and without trained state are updated by the same call,
+                # whichever comes first in the arm list
+                dec = draw(gen.perm_st(list(h.arms) + list(dec)[:max(0, len(dec) - len(h.arms))]))
+                rew = (list(rew) * len(dec))[:len(dec)]
             cx = draw(gen.contexts_st(len(dec), h.d + extra, h.grid))
         if kind == "ctx_superfluous":
             cx = draw(gen.contexts_st(len(dec), 2, h.grid))
